@@ -1,14 +1,9 @@
+\* MUST FAIL, and by this invariant: only FirstWins is checked here (with several workers TLC reports whichever violation it meets first)
 SPECIFICATION Spec
 CONSTANTS
   MaxLines = 3
   LastWins = TRUE
   TruthyPresence = FALSE
-INVARIANT OwnLine
-INVARIANT AbsentDefault
-INVARIANT MissingIffAbsent
-INVARIANT ValueErrorOnlyFromPlayer2
 INVARIANT FirstWins
-INVARIANT Total
-INVARIANT Bounded
 
 CHECK_DEADLOCK FALSE
